@@ -23,6 +23,9 @@ RULES = {
              "so two overlapping producers - or the monitor racing maybe_rollover - both propose a rollover for the same segment. MetadataCmd::RolloverTopic must therefore carry "
              "the id of the segment it seals and Metadata::apply must reject a command whose segment is not the current one; without it the second proposal seals the NEW segment "
              "with the old segment's count while the first sealed the old one short: an acknowledged entry lies beyond the sealed count and no GET returns it",
+    "C22.7": "a revoked lease is revoked (= C23.4): Storage::update_leases leaves the lease set untouched only when it equals the expected set, and otherwise drops every lease that "
+             "is not expected. A node that keeps the lease of a segment it has handed over acknowledges appends routed to it by a lagging peer; they land behind the sealed count and "
+             "no GET returns them",
     "C22.4": "no acknowledged append into a segment this node knows to be sealed (= C23.2's path clause): every path of forward_append that reaches the append has executed "
              "self.update_leases().await before it. Readers leave a sealed segment after sealed_count entries, so an entry acknowledged into it afterwards is never returned by a GET",
 }
@@ -306,8 +309,9 @@ def run(ctx):
         ctx.violate("C22.3", "NodeController::read_one_for_topic_shared", "cursor-lock-not-held", CTRL, rs["line"], "the cursor map's lock is not held across the read")
     from .c23 import check_lease_refresh
     check_lease_refresh(ctx, files, "C22.4")
-    from .c23 import check_lease_critical_section
+    from .c23 import check_lease_critical_section, check_lease_set_exact
     check_lease_critical_section(ctx, files, "C22.5")
+    check_lease_set_exact(ctx, files, "C22.7")
     # ---- C22.6 -----------------------------------------------------------------------
     META = "distributed-walrus/src/metadata.rs"
     mf = A.load(ctx, [META])[META]
